@@ -25,10 +25,13 @@ from .sx import Sym
 
 RULE = ('programs of 2-3 threads x 1-3 operations over one registry (inc / gauge inc,set / summary+histogram observe / labels / '
         'labels().inc on TWO labelled parents (new series of one metric type created concurrently) / remove / clear / register / '
-        'unregister / collect, optionally with collectors that act on the registry from inside collect(): one registers, '
+        'unregister / collect / scrape (generate_latest) / CONSTRUCT a Counter, Gauge, Summary or Histogram, labelled or not, on the shared '
+        'registry (MetricWrapperBase.__init__ ending in registry.register(self); also construct-then-unregister) while other threads '
+        'collect, scrape, register, unregister or construct, optionally with collectors that act on the registry from inside collect(): one registers, '
         'unregisters and looks up; one registers another collector and leaves it registered; one unregisters itself); schedules: EVERY schedule with <= 2 (quick) / <= 3 (thorough) '
         'pre-emptions placed at visible events (TracedLock acquire/release, read/write of a value cell, read/write of '
-        '_metrics/_collector_to_names/_names_to_collectors/_target_info, MmapedDict read_value/write_value and every access to '
+        '_metrics/_collector_to_names/_names_to_collectors/_target_info, inside a metric constructor also every allocation of a value object, '
+        'every creation of a lock and every assignment of a child table, MmapedDict read_value/write_value and every access to '
         'its _used/_m/_positions/_capacity (so inside _init_value between the entry write and the _used update), callout) for the '
         'fixed program list SYSTEMATIC (lowest runnable thread first at blocking points), plus seeded random programs x '
         'seeded random schedules, half of them with pre-emption at ARBITRARY bytecode boundaries inside prometheus_client '
@@ -49,8 +52,10 @@ ASSUMPTIONS = ['collectors called from registry.collect() may take their own mut
                'register() calling describe()/collect() of the new collector while holding the registry lock is outside the property',
                'remove()/clear() are explored in the in-memory back-end only (documented as not implemented in multiprocess mode: '
                'a re-created child resumes from the file)',
-               'labelled children are Counter children (one value object); _exemplar cells and Info/Enum are not instrumented']
-TIME_BUDGET = {'quick': 80, 'thorough': 900}
+               'labelled children are Counter children (one value object); _exemplar cells and Info/Enum are not instrumented',
+               'metrics constructed by the thread programs have distinct names (a duplicate name is refused with ValueError by '
+               'design, not because of the interleaving); labelled metrics constructed by a thread get no children']
+TIME_BUDGET = {'quick': 110, 'thorough': 900}
 
 REPO = os.environ.get('VERIF_REPO', '/repo')
 LIBDIR = os.path.realpath(os.path.join(REPO, 'prometheus_client')) + os.sep
@@ -89,6 +94,26 @@ class Run:
         self.names = {}                   # id(published value object / table / lock / registry) -> model name
         self.known = self.names
         self.inop = [False] * nthreads
+        self.building = [None] * nthreads   # [cid, kind, labelled] while the thread is inside a metric constructor
+        self.early = []                   # (cid, metric object) captured on ENTRY of the constructor (half-built objects too)
+
+    def resolve(self):
+        """Names the parent lock and the child table of the labelled metrics constructed by the thread programs, whenever
+        they appear (the constructor may create them in any order, before or after publishing the metric)."""
+        for cid, m in self.early:
+            d = m.__dict__
+            lk, tb = d.get('_lock'), d.get('_metrics')
+            if isinstance(lk, TracedLock) and id(lk) not in self.names:
+                self.names[id(lk)] = ('s', 10 + c_table(cid))
+                lk.label = str(self.names[id(lk)])
+            if isinstance(tb, TracedDict) and id(tb) not in self.names:
+                self.names[id(tb)] = c_table(cid)
+
+    def made_cid(self, obj):
+        for cid, m in self.early:
+            if m is obj:
+                return cid
+        return None
 
     # ---- identity of the calling thread ----
     def me(self):
@@ -188,12 +213,21 @@ def _lockname_of(run, lock):
     return getattr(lock, 'label', None) or 'lock@%x' % id(lock)
 
 
+def _ctor_point():
+    """Inside a metric constructor run by a thread program: a pre-emption point (no event of the model)."""
+    run = RUN
+    tid = run.me() if run is not None else None
+    if tid is not None and run.building[tid] is not None:
+        run.point(tid, True)
+
+
 class TracedLock:
     """Cooperative replacement for threading.Lock (non re-entrant, like the original)."""
 
     def __init__(self):
         self.owner = None
         self.label = None
+        _ctor_point()
 
     def acquire(self, blocking=True, timeout=-1):
         run = RUN
@@ -249,6 +283,8 @@ def _access(obj, kind, extra=None):
     if run is None:
         return
     tid = run.me()
+    if tid is not None and id(obj) not in run.known and run.early:
+        run.resolve()
     if tid is None or id(obj) not in run.known:
         return                              # set-up code, or an object still under construction (not yet published)
     run.point(tid, True)
@@ -367,6 +403,8 @@ class TableAttr:
         run = RUN
         if isinstance(v, dict) and not isinstance(v, TracedDict):
             v = TracedDict(v)
+        if old is None:
+            _ctor_point()
         if old is not None and run is not None and id(old) in run.known:
             _access(old, 'wr', ('clear',) if not v else ('assign',))
             run.keep.append(old)
@@ -455,6 +493,30 @@ def patch():
     # appending an entry (_init_value) is a slice write followed by the update of _used and _positions
     for attr in ('_used', '_m', '_positions', '_capacity'):
         setattr(mmap_dict.MmapedDict, attr, FileAttr(attr))
+    # metrics constructed BY the thread programs: the object is noted on entry of the constructor (so that a metric that
+    # is published half-built can still be named), and its collect() is a callout of the model like that of a Wrap
+    orig_init = metrics.MetricWrapperBase.__init__
+
+    def traced_init(self, *a, **kw):
+        run = RUN
+        tid = run.me() if run is not None else None
+        if tid is not None and run.building[tid] is not None and not kw.get('_labelvalues'):
+            run.early.append((run.building[tid][0], self))
+            run.keep.append(self)
+        return orig_init(self, *a, **kw)
+    metrics.MetricWrapperBase.__init__ = traced_init
+    orig_collect = metrics.MetricWrapperBase.collect
+
+    def traced_collect(self):
+        run = RUN
+        tid = run.me() if run is not None else None
+        if tid is not None and run.early:
+            cid = run.made_cid(self)
+            if cid is not None:
+                run.point(tid, True)
+                run.log(tid, 'call', self, cid)
+        return orig_collect(self)
+    metrics.MetricWrapperBase.collect = traced_collect
     _PATCHED.update(values=values, metrics=metrics, registry=registry)
     return _PATCHED
 
@@ -492,6 +554,38 @@ CID = {'c': 1, 'g': 2, 's': 3, 'h': 4, 'lc': 5, 'u0': 6, 'u1': 7, 'tmp': 8, 'lc2
 # unregisters itself from inside its collect()
 LC_TBL = 2
 LC2_TBL = 3
+# metrics CONSTRUCTED by the thread programs: collector ids from 20, metric name 'n<cid>'.  An unlabelled one owns the
+# static cells 200 + 10 * (cid - 20) + role (role: the value of a counter / gauge 0; summary count 0, sum 1; histogram
+# sum 0, buckets 1..3), a labelled one the child table 4 + (cid - 20).  The names a metric describes are the keys
+# cid + 1000 * (index of the suffix) of the model's name table.
+C_BASE = 20
+KINDS = {'counter': dict(suffixes=['', '_total', '_created'], roles=[('_total', None)], exemplar=[True]),
+         'gauge': dict(suffixes=[''], roles=[('', None)], exemplar=[False]),
+         'summary': dict(suffixes=['', '_sum', '_count', '_created'], roles=[('_count', None), ('_sum', None)], exemplar=[False, False]),
+         'histogram': dict(suffixes=['', '_bucket', '_sum', '_count', '_created'],
+                           roles=[('_sum', None), ('_bucket', '1.0'), ('_bucket', '2.0'), ('_bucket', '+Inf')],
+                           exemplar=[False, True, True, True])}
+SUFFIX_IDX = {'': 0, '_total': 1, '_created': 2, '_bucket': 3, '_sum': 4, '_count': 5, '_gsum': 6, '_gcount': 7, '_info': 8}
+# the order in which collect() reads the cells of an unlabelled metric (roles)
+READ_ORDER = {'counter': [0], 'gauge': [0], 'summary': [0, 1], 'histogram': [1, 2, 3, 0]}
+
+
+def c_table(cid):
+    return 4 + (cid - C_BASE)
+
+
+def c_cell(cid, role):
+    return 200 + 10 * (cid - C_BASE) + role
+
+
+def c_names(cid, kind):
+    return [cid + 1000 * SUFFIX_IDX[sfx] for sfx in KINDS[kind]['suffixes']]
+
+
+def constructs(case):
+    """The construct operations of a case: [(cid, kind, labelled, unregistered afterwards)]."""
+    return [(op[3], op[1], bool(op[2]), op[0] == 'construct_unreg')
+            for prog in case['threads'] for op in prog if op[0] in ('construct', 'construct_unreg')]
 
 
 class Wrap:
@@ -530,6 +624,23 @@ class World:
             run = RUN
             tid = run.me() if run is not None else None
             slot = None
+            if tid is not None and run.building[tid] is not None and not [l for l in a[3] if l != 'le']:
+                # a value object of an unlabelled metric under construction: a static cell, named by its role
+                cid, kind = run.building[tid][0], run.building[tid][1]
+                le = dict(zip(a[3], a[4])).get('le')
+                sfx = a[2][len(a[1]):] if a[2].startswith(a[1]) else '?'
+                role = KINDS[kind]['roles'].index((sfx, le)) if (sfx, le) in KINDS[kind]['roles'] else 9
+                run.point(tid, True)           # the allocation is a pre-emption point (no event of the model)
+                obj = cls(*a, **kw)
+                run.keep.append(obj)
+                cell = c_cell(cid, role)
+                run.names[id(obj)] = ('s', cell)
+                lk = obj.__dict__.get('_lock')
+                if isinstance(lk, TracedLock):
+                    run.names[id(lk)] = ('s', 100 + cell)
+                world.cells[cell] = obj
+                world.created.append(obj)
+                return obj
             if tid is not None:
                 labels = dict(zip(a[3], a[4]))
                 labels.pop('le', None)
@@ -563,6 +674,8 @@ class World:
         self.ulock3 = TracedLock()
         self.lazy_done = False
         self.gone = False
+        self.made = {}                    # cid -> metric constructed by a thread program
+        self.cells = {}
         self.coll = {}
         for name in ('c', 'g', 's', 'h', 'lc', 'lc2'):
             self.coll[CID[name]] = Wrap(self, CID[name], target=getattr(self, name))
@@ -574,7 +687,7 @@ class World:
         self.coll[CID['u1']] = Wrap(self, CID['u1'], fn=self.reentrant)
         for cid in pre_reg:
             self.reg.register(self.coll[cid])
-        self.cells = {1: self.c._value, 2: self.g._value, 3: self.s._count, 4: self.s._sum, 5: self.h._sum}
+        self.cells.update({1: self.c._value, 2: self.g._value, 3: self.s._count, 4: self.s._sum, 5: self.h._sum})
         for i, b in enumerate(self.h._buckets):
             self.cells[6 + i] = b
 
@@ -670,9 +783,28 @@ def do_op(world, run, tid, op, results):
         world.reg.register(world.coll[op[1]])
     elif k == 'unregister':
         world.reg.unregister(world.coll[op[1]])
+    elif k in ('construct', 'construct_unreg'):
+        kind, lab, cid = op[1], bool(op[2]), op[3]
+        metrics = patch()['metrics']
+        cls = dict(counter=metrics.Counter, gauge=metrics.Gauge, summary=metrics.Summary, histogram=metrics.Histogram)[kind]
+        kw = dict(buckets=[1, 2]) if kind == 'histogram' else {}
+        run.building[tid] = [cid, kind, lab]
+        try:
+            m = cls('n%d' % cid, 'h', ['l'] if lab else [], registry=world.reg, **kw)
+        finally:
+            run.building[tid] = None
+        world.made[cid] = m
+        results.append(['construct', cid])
+        if k == 'construct_unreg':
+            world.reg.unregister(m)
+    elif k == 'scrape':
+        from prometheus_client.exposition import generate_latest
+        text = generate_latest(world.reg)
+        results.append(['scrape', len(text)])
     elif k == 'collect':
         out = {}
         for fam in world.reg.collect():
+            out['#' + fam.name] = 1
             for smp in fam.samples:
                 if smp.name.endswith('_created'):
                     continue
@@ -778,6 +910,7 @@ def _run_schedule(case, mp_dir):
         t.join(timeout=10)
     RUN = None
     # ---- translate the log ----
+    run.resolve()
     ev = []
     names = run.names
     unknown = 0
@@ -847,19 +980,41 @@ def _run_schedule(case, mp_dir):
                 nchildren=run.nchildren)
 
 
+def _cid_of(obj):
+    """Collector id of a registered object: a Wrap, or a metric 'n<cid>' constructed by a thread program."""
+    cid = getattr(obj, 'cid', None)
+    if cid is None:
+        nm = str(getattr(obj, '_name', ''))
+        cid = int(nm[1:]) if nm.startswith('n') and nm[1:].isdigit() else -1
+    return cid
+
+
+def _name_key(k):
+    """Key of a series name in the model's name table: 'n<cid>' -> cid, 'n<cid><suffix>' -> cid + 1000 * suffix index."""
+    k = str(k)
+    if not k.startswith('n'):
+        return -1
+    i = 1
+    while i < len(k) and k[i].isdigit():
+        i += 1
+    if i == 1 or k[i:] not in SUFFIX_IDX:
+        return -1
+    return int(k[1:i]) + 1000 * SUFFIX_IDX[k[i:]]
+
+
 def _key(tb, k):
     if tb == 0:
-        return k.cid                       # collector object
+        return _cid_of(k)                  # collector object
     if tb == 1:
-        return int(str(k)[1:]) if str(k).startswith('n') else -1     # name 'n<cid>'
+        return _name_key(k)
     return KEYS.index(k[0]) if (isinstance(k, tuple) and len(k) == 1 and k[0] in KEYS) else -1
 
 
 def _tval(tb, v, names):
     if tb == 0:
-        return int(v[0][1:]) if v else -1  # list of names -> the collector id
+        return min(_name_key(x) for x in v) if v else -1  # list of names -> the collector id (the bare name 'n<cid>' has the smallest key)
     if tb == 1:
-        return getattr(v, 'cid', -1)
+        return _cid_of(v)
     vid = names.get(id(getattr(v, '__dict__', {}).get('_value')))
     return vid[1] if vid else -1
 
@@ -919,17 +1074,30 @@ def model_ops(op):
         return [(Sym('register'), op[1])]
     if k == 'unregister':
         return [(Sym('unregister'), op[1])]
-    if k == 'collect':
+    if k in ('collect', 'scrape'):
         return [(Sym('collect'), 100)]
+    if k in ('construct', 'construct_unreg'):
+        kind, lab, cid = op[1], bool(op[2]), op[3]
+        ks = c_names(cid, kind)
+        out = [(Sym('construct'), cid, ks, 0 if lab else len(KINDS[kind]['roles']))]
+        if k == 'construct_unreg':
+            out.append((Sym('unregistern'), cid, ks))
+        return out
     raise AssertionError(op)
 
 
-def model_bodies(flags):
+def model_bodies(flags, case=None):
     L, E = flags
 
     def get(x, e):
         return (Sym('get'), x, L, E and e)
-    return [
+    made = []
+    for cid, kind, lab, _ in (constructs(case) if case else []):
+        if lab:
+            made.append((cid, [(Sym('multi'), c_table(cid), 101)]))
+        else:
+            made.append((cid, [get(_x(c_cell(cid, r)), KINDS[kind]['exemplar'][r]) for r in READ_ORDER[kind]]))
+    return made + [
         (1, [get(_x(1), True)]),
         (2, [get(_x(2), False)]),
         (3, [get(_x(3), False), get(_x(4), False)]),
@@ -944,6 +1112,33 @@ def model_bodies(flags):
         (7, [(Sym('uacq'), 1), (Sym('register'), 8), (Sym('unregister'), 8), (Sym('urel'), 1), (Sym('lookup'), 8)]),
         (100, [(Sym('callreg'),)]),
     ]
+
+
+def _canon_writes(evs):
+    """The names a collector describes are recorded / released one by one inside one critical section; the property
+    fixes no order among them: a run of name-table inserts (or deletions) of one thread is compared as a set."""
+    groups = {}
+
+    def flush(tid):
+        g = groups.pop(tid, None)
+        if g and len(g[1]) > 1:
+            vals = sorted(evs[i][3] for i in g[1])
+            for i, v in zip(g[1], vals):
+                evs[i] = evs[i][:3] + (v,)
+    for i, e in enumerate(evs):
+        tid = e[1]
+        if e[0] == 'wr' and e[2] == 1 and e[3][0] in ('ins', 'del'):
+            g = groups.get(tid)
+            if g and g[0] == e[3][0]:
+                g[1].append(i)
+            else:
+                flush(tid)
+                groups[tid] = (e[3][0], [i])
+        else:
+            flush(tid)
+    for tid in list(groups):
+        flush(tid)
+    return evs
 
 
 def norm_impl_events(events):
@@ -982,7 +1177,7 @@ def norm_impl_events(events):
             out.append(('ret', tid, e[2]))
         elif kind == 'exc':
             out.append(('exc', tid))
-    return out
+    return _canon_writes(out)
 
 
 def _mname(a):
@@ -1010,7 +1205,7 @@ def norm_model_events(evs):
             out.append(('exc', tid))
         else:
             out.append((k, tid))
-    return out
+    return _canon_writes(out)
 
 
 FLAGS = {}
@@ -1062,13 +1257,17 @@ def model_replay(m, case, obs):
     locs = [_x(i) for i in range(1, 9)] + [(Sym('c'), c, 0) for c in range(nch)]
     pre = case.get('pre_reg', [1, 2, 3, 4, 5])
     itabs = [(0, [(c, c) for c in pre]), (1, [(c, c) for c in pre])]
-    r = m.call('c02_replay', be == 'mp', threads, model_bodies(flags), tids, locs, [0, 1, 2, 3], itabs)
+    made_cells = [c_cell(cid, r) for cid, kind, lab, _ in constructs(case) if not lab for r in range(len(KINDS[kind]['roles']))]
+    locs += [_x(n) for n in made_cells]
+    r = m.call('c02_replay', be == 'mp', threads, model_bodies(flags, case), tids, locs, [0, 1, 2, 3], itabs)
     mevs = norm_model_events(r[0])
     final = {}
     for i in range(1, 9):
         final['s%d' % i] = int(r[2][i - 1])
     for c in range(nch):
         final['c%d.0' % c] = int(r[2][8 + c])
+    for i, n in enumerate(made_cells):
+        final['s%d' % n] = int(r[2][8 + nch + i])
     tables = {str(t): sorted([int(k), int(v)] for k, v in r[3][t]) for t in range(4)}
     return dict(events=mevs, remaining=[int(x) for x in r[1]], final=final, tables=tables,
                 wf=[sx.d_bool(b) for b in r[4]], stuck=[[int(a), int(b)] for a, b in r[5]])
@@ -1121,6 +1320,36 @@ def direct(case, obs):
         return 'final collect raised %s' % obs['final_exc']
     if obs['still_held']:
         return 'locks still held after all threads finished: %r' % (obs['still_held'],)
+    # metrics constructed on the shared registry by the thread programs: registered (and collected, complete) at the
+    # end unless unregistered again; a concurrent collect reports such a metric completely or not at all
+    made = constructs(case)
+
+    def samples_of(cid, kind):
+        return {'counter': ['n%d_total|'], 'gauge': ['n%d|'], 'summary': ['n%d_count|', 'n%d_sum|'],
+                'histogram': ['n%d_bucket|le=1.0', 'n%d_bucket|le=2.0', 'n%d_bucket|le=+Inf', 'n%d_count|', 'n%d_sum|']}[kind]
+    for cid, kind, lab, unreg in made:
+        fam = '#n%d' % cid
+        in_tables = [cid, cid] in obs['tables']['0']
+        if unreg:
+            if fam in obs['final_collect'] or in_tables:
+                return 'metric n%d was unregistered after its construction but is still registered / collected at the end' % cid
+            continue
+        if fam not in obs['final_collect'] or not in_tables:
+            return 'metric n%d (%s) was constructed on the registry but is not registered / not collected at the end' % (cid, kind)
+        if not lab:
+            for nm in samples_of(cid, kind):
+                if obs['final_collect'].get(nm % cid) != 0:
+                    return 'final collect reports %s = %r for the freshly constructed %s n%d' % (nm % cid, obs['final_collect'].get(nm % cid), kind, cid)
+    for t, res in enumerate(obs['results']):
+        for r in res:
+            if r[0] != 'collect':
+                continue
+            for cid, kind, lab, unreg in made:
+                if '#n%d' % cid in r[1] and not lab:
+                    for nm in samples_of(cid, kind):
+                        if r[1].get(nm % cid) != 0:
+                            return ('a concurrent collect (thread %d) reported the %s n%d while it was being constructed, half-built: '
+                                    '%s = %r' % (t, kind, cid, nm % cid, r[1].get(nm % cid)))
     for e in obs['events']:
         if e[0] in ('ld', 'st') and not isinstance(e[3], int):
             return 'cell %r holds %s, which no sequence of the (integer) updates issued can produce' % (tuple(e[2]), e[3])
@@ -1337,6 +1566,20 @@ SYSTEMATIC = [
     ([9, 5], [[['linc2', 1, 1], ['linc', 0, 2]], [['linc', 1, 3], ['linc2', 0, 1]], [['collect']]]),
     ([5], [[['labels', 0], ['linc', 0, 1]], [['labels', 0]], [['linc', 0, 2]]]),
 ]
+# a metric is CONSTRUCTED on the shared registry while another thread collects / scrapes / registers / constructs
+# (explored first: the constructor is pre-emptible at every visible event and at every allocation inside it)
+SYSTEMATIC_CONSTRUCT = [
+    ([1], [[['construct', 'counter', False, 20]], [['collect']]]),
+    ([1], [[['construct', 'counter', True, 20]], [['collect']]]),
+    ([1], [[['construct', 'histogram', False, 20]], [['scrape']]]),
+    ([2], [[['construct', 'gauge', True, 20]], [['scrape']]]),
+    ([1], [[['construct', 'gauge', False, 20]], [['construct', 'summary', True, 21]], [['collect']]]),
+    ([1, 6], [[['construct_unreg', 'counter', False, 20]], [['collect']], [['unregister', 6]]]),
+    ([1], [[['construct_unreg', 'histogram', True, 20]], [['collect'], ['collect']]]),
+    ([], [[['construct', 'summary', False, 20]], [['register', 6], ['collect']]]),
+    ([7], [[['construct', 'counter', False, 20]], [['collect']]]),
+]
+SYSTEMATIC = SYSTEMATIC_CONSTRUCT + SYSTEMATIC
 
 
 def random_program(rng):
@@ -1352,13 +1595,20 @@ def random_program(rng):
     threads = []
     removal_ok = rng.random() < 0.3
     mem_only = False
+    next_cid = C_BASE
+    builder = rng.randrange(n) if rng.random() < 0.45 else None     # the threads that construct metrics
+    builder2 = rng.randrange(n) if rng.random() < 0.15 else None
     for t in range(n):
         prog = []
         have6 = u0_reg
         for _ in range(rng.randrange(1, 4)):
             r = rng.random()
             a = rng.randrange(1, 6)
-            if r < 0.2:
+            if t in (builder, builder2) and next_cid < C_BASE + 4 and rng.random() < 0.5:
+                prog.append([rng.choice(('construct', 'construct', 'construct_unreg')),
+                             rng.choice(('counter', 'gauge', 'summary', 'histogram')), rng.random() < 0.4, next_cid])
+                next_cid += 1
+            elif r < 0.2:
                 prog.append(['inc', a])
             elif r < 0.3:
                 prog.append(['linc', rng.randrange(2), a])
@@ -1367,7 +1617,7 @@ def random_program(rng):
             elif r < 0.47:
                 prog.append(['labels', rng.randrange(2)])
             elif r < 0.6:
-                prog.append(['collect'])
+                prog.append(['collect'] if rng.random() < 0.75 else ['scrape'])
             elif r < 0.66:
                 prog.append(['obs_s', a])
             elif r < 0.72:
@@ -1386,7 +1636,7 @@ def random_program(rng):
                 prog.append(['inc', a])
         threads.append(prog)
     # the lazily registering / self-unregistering collectors act once: at most one collect in the program
-    if lazy is not None and sum(1 for p in threads for o in p if o[0] == 'collect') == 1:
+    if lazy is not None and sum(1 for p in threads for o in p if o[0] in ('collect', 'scrape')) == 1:
         pre.insert(rng.randrange(len(pre) + 1), lazy)
         return pre, threads, mem_only
     return sorted(set(pre)), threads, mem_only
